@@ -134,7 +134,7 @@ fn caps_for(n: usize, rng: &mut Rng) -> Vec<Option<usize>> {
 }
 
 fn gen_c01(tier: &Tier, rng: &mut Rng, w: usize, nw: usize, out: &mut Vec<Case>) {
-    let nrand = if tier.thorough { 400_000 } else { 12_000 };
+    let nrand = if tier.thorough { 400_000 } else { 36_000 };
     for p in payload_family(tier, rng, w, nw, nrand, true) {
         let f = spec::frame(&p);
         let ft = tok(&f);
@@ -162,7 +162,7 @@ fn gen_c01(tier: &Tier, rng: &mut Rng, w: usize, nw: usize, out: &mut Vec<Case>)
 }
 
 fn gen_c07(tier: &Tier, rng: &mut Rng, w: usize, nw: usize, out: &mut Vec<Case>) {
-    let nrand = if tier.thorough { 400_000 } else { 12_000 };
+    let nrand = if tier.thorough { 400_000 } else { 36_000 };
     for p in payload_family(tier, rng, w, nw, nrand, true) {
         let f = spec::frame(&p);
         let l = f.len();
@@ -239,7 +239,7 @@ fn stream_family(tier: &Tier, rng: &mut Rng, w: usize, nw: usize, nrand: usize) 
 }
 
 fn gen_c02(tier: &Tier, rng: &mut Rng, w: usize, nw: usize, out: &mut Vec<Case>) {
-    let nrand = if tier.thorough { 1_500_000 } else { 40_000 };
+    let nrand = if tier.thorough { 1_500_000 } else { 120_000 };
     for s in stream_family(tier, rng, w, nw, nrand) {
         let st = tok(&s);
         let small = *rng.pick(&[0usize, 1, 2, 3, 4, 5, 8, 16]);
@@ -279,7 +279,7 @@ fn random_history(rng: &mut Rng, s: &[u8]) -> String {
 }
 
 fn gen_c05(tier: &Tier, rng: &mut Rng, w: usize, nw: usize, out: &mut Vec<Case>) {
-    let nrand = if tier.thorough { 600_000 } else { 30_000 };
+    let nrand = if tier.thorough { 600_000 } else { 90_000 };
     for s in stream_family(tier, rng, w, nw, nrand) {
         let cap = match rng.below(4) {
             0 => None,
@@ -296,6 +296,14 @@ fn gen_c05(tier: &Tier, rng: &mut Rng, w: usize, nw: usize, out: &mut Vec<Case>)
         }
         if rng.chance(1, 4) {
             lines.push(format!("rdr io {} {} {}", cap_tok(cap), rand_calls(rng, 10), fault_events(rng, &s, true)));
+        }
+        if rng.chance(1, 8) {
+            // non-fused sources: `None`, then more items
+            let j = rng.below(s.len() + 1);
+            lines.push(format!("iterx {} {} {} 4", cap_tok(cap), tok(&s[..j]), tok(&s[j..])));
+            let p = rand_payload(rng, 20);
+            let jj = rng.below(p.len() + 1);
+            lines.push(format!("encix {} {} 4", tok(&p[..jj]), tok(&p[jj..])));
         }
         if rng.chance(1, 6) {
             let p = rand_payload(rng, 40);
@@ -370,7 +378,7 @@ fn gen_c15(tier: &Tier, rng: &mut Rng, w: usize, nw: usize, out: &mut Vec<Case>)
         let s = format!("{},aa*4294967296", tok(&spec::frame(&[1, 2, 3])));
         out.push(Case::new("noise-4gib", vec![format!("dec inf {} F", s), format!("rdr io inf nnn {}", s)]).impl_only(true));
     }
-    let nrand = if tier.thorough { 500_000 } else { 25_000 };
+    let nrand = if tier.thorough { 500_000 } else { 75_000 };
     for s in stream_family(tier, rng, w, nw, nrand) {
         let st = tok(&s);
         let big = cap_at_least(s.len());
@@ -391,7 +399,7 @@ fn gen_c15(tier: &Tier, rng: &mut Rng, w: usize, nw: usize, out: &mut Vec<Case>)
 }
 
 fn gen_c17(tier: &Tier, rng: &mut Rng, w: usize, nw: usize, out: &mut Vec<Case>) {
-    let nrand = if tier.thorough { 500_000 } else { 25_000 };
+    let nrand = if tier.thorough { 500_000 } else { 75_000 };
     for s in stream_family(tier, rng, w, nw, nrand) {
         let cap = if rng.chance(1, 3) { Some(*rng.pick(&[0usize, 2, 4, 8])) } else { None };
         let mut lines = vec![format!("dec {} {} F", cap_tok(cap), tok(&s))];
@@ -467,7 +475,7 @@ fn gen_c18(tier: &Tier, rng: &mut Rng, _w: usize, nw: usize, out: &mut Vec<Case>
         ];
         out.push(Case::new("big-capacity", vec![format!("abuf {} {}", cap, ops.join(" "))]).impl_only(cap > 1000));
     }
-    let n = if tier.thorough { 600_000 } else { 20_000 } / nw;
+    let n = if tier.thorough { 600_000 } else { 60_000 } / nw;
     for _ in 0..n {
         let cap = *rng.pick(&[0usize, 1, 2, 3, 5, 8, 16, 64]);
         let nops = rng.range(1, 40);
